@@ -22,7 +22,8 @@ ID_RULE = "max"          # the numbering rule of JobManager::add_as_current the 
                          # as it is) or "max" (max live id + 1, the proposed repair).  Switch when /repo is repaired.
 CLAUSE_DUP = "job_id_reuse_after_poll"
 CLAUSE_PREV = "previous_mark_not_cleared"   # outside the property's text; only reported when listed
-FORMS = "sbflpac"
+FORMS = "sbflpacxy"     # x, y: the job's body ends with exit status 3 / 42
+FORM_CODE = {"x": 3, "y": 42}
 
 
 # ------------------------------------------------------------------------------------------------
@@ -54,9 +55,11 @@ def direct_check(ops, resp):
     fails = []
     launched = 0
     dup_seen = False
+    forms = {}
     for i, (op, st) in enumerate(zip(ops, steps)):
         if op[0] == "L":
             launched += 1
+            forms[str(launched)] = op[1:2]
         cx = op[2] if op[1:2] == "@" else None          # W@f…, S@s…, J@e: issued from inside a context
         if cx:
             op = op[0] + op[3:]
@@ -81,6 +84,19 @@ def direct_check(ops, resp):
                     fails.append((None, "wait did not return although every job had finished", i))
             break
         table, ended, extra = st
+        if any(j[2] == "D" for j in table):
+            fails.append((None, "a job that has run to its end (Done) is still in the job table: %s" % (table,), i))
+        if op[0] == "S" and extra.startswith("st"):
+            # wait %N: the status is the waited job's own, the job is forgotten; an unknown spec gives 127
+            msp = re.match(r"^S%(\d+):", op)
+            prevt = steps[i - 1][0] if i and not isinstance(steps[i - 1], str) else []
+            if msp:
+                hit = [j for j in prevt if j[0] == int(msp.group(1))]
+                want = FORM_CODE.get(forms.get(hit[0][3], ""), 0) if hit else 127
+                if extra != "st%d" % want:
+                    fails.append((None, "`wait %%%s` returned %s, the job's status is %d" % (msp.group(1), extra[2:], want), i))
+                if hit and any(j[3] == hit[0][3] for j in table):
+                    fails.append((None, "the job waited for by `wait %%%s` is still in the table" % msp.group(1), i))
         ids = [j[0] for j in table]
         if len(set(ids)) != len(ids) and not dup_seen:
             dup_seen = True
@@ -668,11 +684,14 @@ def iso_cases(rng):
 
 
 # -- synchronisation forms other than plain `wait`, job-table listings, disown / kill / $! ----------------------
-CL_STATUS = "wait_jobspec_returns_zero"
-CL_NOSUCH = "wait_unknown_jobspec_status_1"
-CL_WAITED = "waited_job_stays_addressable"
+# C17-3 (wait_stops_at_job_that_ended_with_error, 4d56742), C17-4 (wait_jobspec_returns_zero), C17-5
+# (wait_unknown_jobspec_status_1) and C17-6 (waited_job_stays_addressable, all cbd33c7) are fixed in /repo: their
+# templates stay in the family as tripwires (clause None: any difference from bash is a VIOLATION again).
+CL_STATUS = None
+CL_NOSUCH = None
+CL_WAITED = None
 CL_KILL = "kill_jobspec_cannot_signal_background_task"
-CL_ABORT = "wait_stops_at_job_that_ended_with_error"
+CL_ABORT = None
 CL_WAITN = "wait_n_unimplemented"
 CL_NAME = "jobspec_by_command_text_unimplemented"
 CL_JOBSP = "jobs_p_prints_no_pid"
@@ -720,8 +739,15 @@ def sync_cases(rng):
          "wait %-; echo \"s=$?\"", WL, "wait %%; echo \"s=$?\"", WL], [[], [3]])
     add("wait_unknown_spec", CL_NOSUCH, {"s"}, None,
         ["( sleep 0.1; echo 1 >> $M ) &", "wait %7 2>/dev/null; echo \"s=$?\"", "wait %1; echo \"s=$?\"", WL], [[1]])
-    add("wait_twice_same_spec", CL_WAITED, {"s"}, None,
-        ["( sleep 0.1; echo 1 >> $M ) &", "wait %1; echo \"s=$?\"", WL, "wait %1 2>/dev/null; echo \"s=$?\"", WL], [[1], [1]])
+    # a waited job is forgotten: not listed, and its number is free for the next job (a second `wait %1` on the
+    # remembered job is kept out: bash itself answers 0 or 127 depending on what it still remembers)
+    add("wait_spec_forgets_job", CL_WAITED, {"n"}, None,
+        ["( sleep 0.1; echo 1 >> $M; exit %d ) &" % a, "wait %1; echo \"s=$?\"", WL,
+         "jobs > $F; echo \"n=$(grep -o '^\\[[0-9]*\\]' $F | tr -d '\\n')\"",
+         "( sleep 0.3; echo 2 >> $M ) &", "jobs > $F; echo \"n=$(grep -o '^\\[[0-9]*\\]' $F | tr -d '\\n')\"",
+         "( sleep 0.3; echo 3 >> $M ) &", "wait %1; echo \"s=$?\"", WL,
+         "( sleep 0.05; echo 4 >> $M ) &", "jobs > $F; echo \"n=$(grep -o '^\\[[0-9]*\\]' $F | tr -d '\\n')\""],
+        [[1], [1, 2]])
     add("kill_spec", CL_KILL, {"k", "W", "s"}, "kill", ["( sleep 0.4; echo 1 >> $M ) &", "kill %1; echo \"k=$?\"", "wait; echo \"s=$?\"", WL], [[]])
     # a job whose task ends with an error (failing expansion in the job's own shell): plain `wait`
     fail = rng.choice([": $((1/0)) &", "{ sleep 0.05; : ${nosuchvar?boom}; } &", "{ sleep 0.02; echo 9 >> $M; : $((1/0)); } &"])
@@ -778,16 +804,6 @@ def classify_sweep(case, rb, ro):
         pre = fg_diff_prefixes(bf, of)
         tok = case.get("token")
         narrow = pre is not None and pre <= case["prefixes"] and rb["rc"] == ro["rc"] and (tok is None or tok in rb["err"])
-        if clause == CL_STATUS:       # brush's status is 0 where bash reports the job's own
-            narrow = narrow and all(x == "s=0" for x, y in zip(bf, of) if x != y)
-        if clause in (CL_NOSUCH,):
-            narrow = narrow and all((x, y) == ("s=1", "s=127") for x, y in zip(bf, of) if x != y)
-        if clause == CL_WAITED:
-            pairs = {(x, y) for x, y in zip(bf, of) if x != y}
-            if pairs == {("s=1", "s=127")}:
-                clause = CL_NOSUCH      # the poll between commands (stdin / prompt) had already removed the waited job
-            else:
-                narrow = narrow and pairs == {("s=0", "s=127")}
         if narrow:
             return "known", clause, why
     return "violation", None, why
